@@ -123,9 +123,16 @@ impl<'de> JsonInput<'de> for &'de Bytes {
     }
 
     fn to_json_slice(&self) -> JsonSlice<'de> {
-        let bytes = self.as_ref();
+        let bytes: &'de [u8] = (*self).as_ref();
         let newed = self.slice_ref(bytes);
-        JsonSlice::FastStr(unsafe { FastStr::from_bytes_unchecked(newed) })
+        let shared = unsafe { FastStr::from_bytes_unchecked(newed) };
+        // a short input is inlined into the `FastStr`: what a reader hands out for `'de`
+        // (borrowed strings, keys) must point into the caller's buffer, not into that copy
+        if shared.as_ptr() == bytes.as_ptr() {
+            JsonSlice::FastStr(shared)
+        } else {
+            JsonSlice::Raw(bytes)
+        }
     }
 
     fn from_subset(&self, sub: &'de [u8]) -> JsonSlice<'de> {
@@ -143,7 +150,14 @@ impl<'de> JsonInput<'de> for &'de FastStr {
     }
 
     fn to_json_slice(&self) -> JsonSlice<'de> {
-        JsonSlice::FastStr((**self).clone())
+        let bytes: &'de [u8] = (*self).as_ref();
+        let shared = (**self).clone();
+        // the clone of an inlined `FastStr` is a copy: borrow the caller's one instead (see `&Bytes`)
+        if shared.as_ptr() == bytes.as_ptr() {
+            JsonSlice::FastStr(shared)
+        } else {
+            JsonSlice::Raw(bytes)
+        }
     }
 
     fn from_subset(&self, sub: &'de [u8]) -> JsonSlice<'de> {
